@@ -180,6 +180,10 @@ func (ex *Ex) assumeParamFacts(st *State, t *T, ty types.Type) {
 		}
 	case *types.Pointer:
 		st.Assume(App("alloc0", SBool, t))
+	case *types.Interface:
+		if f := ex.ifaceTypeFact(t, ty); f != nil {
+			st.Assume(f)
+		}
 	}
 }
 
@@ -345,6 +349,9 @@ func (w *World) RunLemma(lem *Contract, opts VerifyOpts) (res *FuncResult) {
 		}
 	}()
 	st := NewState()
+	fr.Lvl = Var("lvl", SInt)
+	st.ghost["$cap"] = SV{T: Var("cap0", SInt), Ty: tInt}
+	st.ghost["$dom"] = SV{T: Var("dom0", SInt), Ty: tInt}
 	for _, p := range lem.Params {
 		ty, err := w.ResolveType(p.Type, lem.PkgName)
 		if err != nil {
